@@ -681,6 +681,31 @@ def do_backup(options):
     do_full_backup(options)
 
 
+def check_chain(repofiles):
+    # Make sure that the files are the full backup the list starts with and
+    # its incrementals, without a gap.  When a full backup file is missing,
+    # find_files() falls back to the previous full backup and returns the
+    # incrementals of the missing one along with it; when an incremental is
+    # missing it is simply left out.  Concatenated, such a list gives a file
+    # that never existed.
+    datfile = os.path.splitext(repofiles[0])[0] + '.dat'
+    try:
+        with open(datfile) as fp:
+            listed = [os.path.basename(line.split()[0])
+                      for line in fp if line.strip()]
+    except OSError:
+        return  # nothing to check against
+    for fn, expected in zip(repofiles, listed + [None] * len(repofiles)):
+        if os.path.basename(fn) != expected:
+            if expected is None or os.path.basename(fn) not in listed:
+                raise VerificationFail(
+                    "%s is not an incremental of %s:"
+                    " a full backup is missing" % (fn, repofiles[0]))
+            raise VerificationFail(
+                "%s is missing" % os.path.join(
+                    os.path.dirname(fn), expected))
+
+
 def do_recover(options):
     # Find the first full backup at or before the specified date
     repofiles = find_files(options)
@@ -689,6 +714,7 @@ def do_recover(options):
             raise NoFiles(f'No files in repository before {options.date}')
         else:
             raise NoFiles('No files in repository')
+    check_chain(repofiles)
 
     files_to_close = ()
     if options.output is None:
@@ -768,6 +794,7 @@ def do_verify(options):
     repofiles = find_files(options)
     if not repofiles:
         raise NoFiles('No files in repository')
+    check_chain(repofiles)
     datfile = os.path.splitext(repofiles[0])[0] + '.dat'
     with open(datfile) as fp:
         for line in fp:
